@@ -1331,7 +1331,10 @@ macro_rules! skip_iterator_iterator_impl {
                 // to check if it's a digit, which adds on additional cost but
                 // there's not much else we can do. Hopefully the previous inlining
                 // checks will minimize the performance hit.
-                if !Self::IS_CONTIGUOUS && self.is_digit(*value) {
+                // The count is also needed if only this component is contiguous
+                // but the buffer as a whole can skip digit separators, since then
+                // the buffer's count is the sum of the components' counts.
+                if !<Bytes<'a, FORMAT> as Iter<'a>>::IS_CONTIGUOUS && self.is_digit(*value) {
                     self.increment_count();
                 }
                 Some(value)
@@ -1384,6 +1387,13 @@ macro_rules! skip_iterator_iter_base {
         unsafe fn step_by_unchecked(&mut self, count: usize) {
             // SAFETY: Safe if the buffer has at least `N` elements.
             unsafe { self.byte.step_by_unchecked_impl(count, Self::IS_CONTIGUOUS) }
+            // NOTE: Steps of more than 1 byte are only taken by the multi-digit
+            // parsers, over bytes validated to be digits. If the buffer can skip
+            // digit separators in other components, its digit count is the sum of
+            // the components' counts, so they must include these digits.
+            if count > 1 && !<Bytes<'a, FORMAT> as Iter<'a>>::IS_CONTIGUOUS {
+                self.byte.$count += count;
+            }
         }
 
         #[inline(always)]
